@@ -97,6 +97,7 @@ func c12Class(src string, stage string, msg string) string {
 
 func c12One(r *Run, src string, host interface{}, hostName string, budget time.Duration) {
 	what := fmt.Sprintf("%q host=%s", trunc(src, 160), hostName)
+	r.Mark("Eval / Compile / Callable / Debug on " + what)
 	t0 := time.Now()
 	// Eval
 	if pan, msg := protect(func() { yae.Eval(src, host) }); pan {
